@@ -31,6 +31,9 @@ func compareCurrentPodWithNewPod(params *Parameters, pod *corev1.Pod, node *Node
 	if !compareSpecTemplateMD5Hash(params.Replicaset.Spec.TemplateGeneration, pod) {
 		return false
 	}
+	if !compareExtendedDaemonsetSettingName(pod, node) {
+		return false
+	}
 	if !compareWithExtendedDaemonsetSettingOverwrite(pod, withoutNodeOverriddenContainers(params, node)) {
 		return false
 	}
@@ -39,6 +42,19 @@ func compareCurrentPodWithNewPod(params *Parameters, pod *corev1.Pod, node *Node
 	}
 
 	return true
+}
+
+// compareExtendedDaemonsetSettingName returns false when the pod was created with an ExtendedDaemonsetSetting
+// that is no longer the one applied to its node (setting deleted, in error, or not selecting the node anymore):
+// such a pod keeps resources that a pod created now would not get.
+func compareExtendedDaemonsetSettingName(pod *corev1.Pod, node *NodeItem) bool {
+	name, found := pod.GetLabels()[datadoghqv1alpha1.ExtendedDaemonSetSettingNameLabelKey]
+	if !found {
+		return true
+	}
+	setting := node.ExtendedDaemonsetSetting
+
+	return setting != nil && setting.GetName() == name && setting.GetNamespace() == pod.GetLabels()[datadoghqv1alpha1.ExtendedDaemonSetSettingNamespaceLabelKey]
 }
 
 // withoutNodeOverriddenContainers hides from the ExtendedDaemonsetSetting the containers whose resources are
